@@ -1,7 +1,16 @@
 #!/bin/bash
-# Run once after a fresh restore, offline: build every engine from files on disk.
+# Run once after a fresh restore, offline: build every engine from files on disk and verify the
+# C11 reference tables (regenerating them from mathematics when python3-vt/mpmath is present).
 set -e
-cd "$(dirname "$0")/harness"
+cd "$(dirname "$0")"
 export CARGO_NET_OFFLINE=true
-cargo build --offline --release -p vpchecks --bins 2>&1 | grep -v "^warning\|^ *|\|^ *=\|^$\|^ *-->" | tail -5
+( cd harness && cargo build --offline --release --workspace --bins 2>&1 | grep -v "^warning\|^ *|\|^ *=\|^$\|^ *-->\|^ *[0-9]* *|" | tail -5 )
+( cd tables && sha256sum -c SHA256SUMS >/dev/null && echo "setup: C11 tables match SHA256SUMS" )
+if command -v python3-vt >/dev/null 2>&1; then
+  T=$(mktemp -d)
+  for f in exp ln; do python3-vt tables/gen.py $f 8 0 $T/p8_$f.bin >/dev/null; cmp $T/p8_$f.bin tables/p8_$f.bin; done
+  python3-vt tables/gen.py log2 16 1 $T/p16_log2.bin >/dev/null && cmp $T/p16_log2.bin tables/p16_log2.bin
+  rm -rf "$T"
+  echo "setup: table generator reproduces p8_exp, p8_ln, p16_log2 bit for bit"
+fi
 echo "setup: engines built"
